@@ -334,6 +334,18 @@ func (g *c12Gen) callFn(d int) jast.Node {
 	for i := range args {
 		args[i] = g.num(d + 1)
 	}
+	if n > ar && n > 0 {
+		// the callee ignores the value of a surplus argument, but evaluating it
+		// is part of the calling block: a binding it makes stays, an error counts
+		switch r.Intn(6) {
+		case 0, 1, 2:
+			g.tags["call:surplus-argument-binds-a-variable"] = true
+			args[n-1] = &jast.Assign{Name: c12Vars[r.Intn(len(c12Vars))], Val: g.num(d + 1)}
+		case 3:
+			g.tags["call:surplus-argument-fails"] = true
+			args[n-1] = &jast.Call{Fn: &jast.Num{V: 1}, Args: []jast.Node{&jast.Num{V: 2}}}
+		}
+	}
 	g.tags["call"] = true
 	return &jast.Call{Fn: &jast.Var{Name: f}, Args: args}
 }
